@@ -26,12 +26,27 @@ def warmup(o, rng, n=None, phos=True):
     # the scenarios take turns (every one of them occurs in every run, however few objects a check warms up); a scenario that needs
     # S/T/Y passes its turn to the next one when the sequence has none
     global _TURN
-    order = ["phos", "dist", "cache", "perm", "moves", "defaults", "phos", "none"]
-    for _ in range(len(order)):
-        scen = order[_TURN % len(order)]
-        _TURN += 1
-        if scen not in ("phos", "dist") or (sty and phos):
+    order = ["phos", "dist", "cache", "perm", "moves", "defaults", "profiles", "phos", "none"]
+
+    def applicable(sc):
+        if sc in ("phos", "dist"):
+            return bool(sty and phos)
+        if sc == "moves":          # exchanging residues of one charge class shows nothing
+            return N >= 2 and any(ch in "KRDE" for ch in seq) and len(set(common.charge_pattern(seq))) >= 2
+        return True
+    scen = None
+    for sc in list(_OWED):          # a scenario that had to pass its turn is owed to the next object it applies to
+        if applicable(sc):
+            _OWED.remove(sc)
+            scen = sc
             break
+    while scen is None:
+        sc = order[_TURN % len(order)]
+        _TURN += 1
+        if applicable(sc):
+            scen = sc
+        elif sc not in _OWED:
+            _OWED.append(sc)
     pre = []
     if scen in ("phos", "dist") and sty and phos:
         pre.append({"call": "set_phosphosites", "sites": rng.sample(sty, min(len(sty), rng.randint(1, 3)))})
@@ -43,8 +58,16 @@ def warmup(o, rng, n=None, phos=True):
     elif scen == "perm":
         pre += [{"call": "get_deltaMaxPerm"}, {"call": "get_shuffled_sequence"}]
     elif scen == "moves" and N >= 2:
-        i1, i2 = rng.sample(range(N), 2)
-        pre += [{"call": "backend_swapRes", "i": i1, "j": i2}, {"call": "backend_swapRandChargeRes"}, {"call": "backend_full_shuffle"}]
+        i1, i2 = swap_pair(seq, rng)
+        # the parent's answers are asked for first (whatever it remembers is there when the permutants are derived); the swap
+        # exchanges residues of different charge classes where the chain has them, and the permutant is swapped once more
+        pre += [{"call": "get_SCD"}, {"call": "get_kappa"}, {"call": "backend_swapRes", "i": i1, "j": i2},
+                {"call": "backend_swapRes_twice", "i": i1, "j": i2, "k": rng.randrange(N), "l": rng.randrange(N)},
+                {"call": "backend_swapRandChargeRes"}, {"call": "backend_full_shuffle"}]
+    elif scen == "profiles":
+        # every sliding-window profile (whatever they compute on must not be the object's own bookkeeping)
+        w_ = rng.randint(1, min(N, 7))
+        pre += [{"call": n_, "w": w_} for n_ in ("get_linear_FCR", "get_linear_NCPR", "get_linear_sigma", "get_linear_hydropathy", "get_linear_composition")]
     elif scen == "defaults":
         pre += [{"call": "get_linear_composition", "w": rng.randint(1, N)}, {"call": "get_linear_composition", "w": rng.randint(1, N)}]
     for c in pre:
@@ -77,11 +100,31 @@ def warmup(o, rng, n=None, phos=True):
     return hist
 
 
+def swap_pair(seq, rng):
+    """Two positions to exchange: of opposite charge if the chain has both signs, else charged / neutral, else any two."""
+    N = len(seq)
+    pos = [i for i, ch in enumerate(seq) if ch in "KR"]
+    neg = [i for i, ch in enumerate(seq) if ch in "DE"]
+    neu = [i for i, ch in enumerate(seq) if ch not in "KRDE"]
+    if pos and neg:
+        return rng.choice(pos), rng.choice(neg)
+    if (pos or neg) and neu:
+        return rng.choice(pos or neg), rng.choice(neu)
+    i1, i2 = rng.sample(range(N), 2)
+    return i1, i2
+
+
 def apply_call(o, c):
     """Apply one call descriptor; returns common.call's outcome."""
     if "made" in c:
         return ("ok", None)
     n = c["call"]
+    if n == "backend_swapRes_twice":
+        out = common.call(o.SeqObj.swapRes, c["i"], c["j"])
+        if out[0] == "ok" and hasattr(out[1], "swapRes"):
+            common.call(out[1].swapRes, c["k"], c["l"])          # ... and the permutant's own permutant
+            common.call(out[1].swapRes, c["i"], c["l"])
+        return out
     if n == "get_deltaMaxPerm":
         return common.call(o.get_deltaMax, True)
     if n == "backend_swapRes":
@@ -129,6 +172,7 @@ def apply_call(o, c):
 
 
 _TURN = 0
+_OWED = []
 _MK = 0
 
 
@@ -141,9 +185,25 @@ def make_object(lc, seq, rng, allow_shuffle=True):
     sequence is then a rearrangement of `seq`).  Returns (object, its sequence, how)."""
     # the ways of making an object take turns (every one of them occurs in every run, however few objects a check makes)
     global _MK
-    how = ["direct", "shuffled", "decorated", "file", "direct", "seqobj", "decorated", "shuffled", "direct", "file"][_MK % 10]
+    how = ["direct", "shuffled", "decorated", "file", "moved", "direct", "seqobj", "decorated", "shuffled", "direct", "file"][_MK % 11]
     _MK += 1
     rng.random()
+    if how == "moved" and (not allow_shuffle or len(seq) < 2):
+        how = "direct"
+    if how == "moved":
+        # the permutant a backend pair swap derives from a parent that has already answered (and may remember) every patterning
+        # question; the child is queried through the public class
+        parent = lc.SP(seq)
+        for q in (parent.get_SCD, parent.get_kappa, parent.get_delta, parent.get_deltaMax, parent.get_Omega, parent.get_FCR, parent.get_NCPR,
+                  parent.get_mean_hydropathy, parent.get_isoelectric_point, parent.get_phasePlotRegion):
+            common.call(q)
+        i1, i2 = swap_pair(seq, rng)
+        out = common.call(parent.SeqObj.swapRes, i1, i2)
+        if out[0] == "ok" and hasattr(out[1], "seq"):
+            child = common.call(lambda: lc.SP(SeqObj=out[1]))
+            if child[0] == "ok":
+                return child[1], child[1].get_sequence(), "permutant of a queried parent (backend swapRes %d,%d)" % (i1, i2)
+        how = "direct"
     r = {"direct": 0.0, "seqobj": 0.5, "file": 0.55, "decorated": 0.7, "shuffled": 0.9}[how]
     if r < 0.45:
         return lc.SP(seq), seq, "direct"
